@@ -791,6 +791,7 @@ class C06(Check):
     def must_fire(self):
         B = "_handle_block"
         return [
+            Variant("known-calls-stay-symbolic", MOD, "_handle_call", "return sympy.Float(fn(*model_args))", "return fn(*model_args)", expect="S12|", quick=True),
             Variant("statement-default-skips", MOD, B, "            msg = f'Statement type {type(node).__name__} not implemented'\n            raise NotImplementedError(msg)",
                     "            _LOGGER.debug('Skipping node of type %s', type(node))", expect="S1|meta/source_tools.py|_handle_block|statement-default", quick=True),
             Variant("shared-branch-context", MOD, B, "ctx_else = ctx.updated(symbols=dict(ctx.symbols))", "ctx_else = ctx_if", expect="S4|", quick=True),
